@@ -907,6 +907,95 @@ def check_none(ctx, R="C08.none"):
     ctx.floor(R, n, 3, "calls of None-returning helpers")
 
 
+_MEMO_WITNESS = """
+def f(field, dist):
+    cells = getattr(field, "_cells", None)
+    if cells is None:
+        cells = [c.buffer(dist) for c in field.cells]
+        field._cells = cells
+    return cells
+"""
+
+
+def _memo_findings(fn):
+    """[(node, obj, attr, params)] for memos `v = getattr(o, 'a', None) / o.a` ... `o.a = v` in fn whose stored value depends on
+    parameters of fn other than o"""
+    params = {a.arg for a in fn.args.args + fn.args.kwonlyargs} | ({fn.args.vararg.arg} if fn.args.vararg else set())
+    assigns = [a for a in walk_local(fn) if isinstance(a, ast.Assign) and len(a.targets) == 1]
+    out = []
+    stores = [a for a in assigns if isinstance(a.targets[0], ast.Attribute) and isinstance(a.targets[0].value, ast.Name) and a.targets[0].value.id in params and a.targets[0].attr.startswith("_")]
+    for st in stores:
+        obj, attr = st.targets[0].value.id, st.targets[0].attr
+        # it is a memo when the same function also reads the attribute back (getattr / hasattr / attribute load)
+        reads = [
+            n
+            for n in walk_local(fn)
+            if (isinstance(n, ast.Call) and dotted(n.func) in ("getattr", "hasattr") and len(n.args) >= 2 and unparse(n.args[0]) == obj and isinstance(n.args[1], ast.Constant) and n.args[1].value == attr)
+            or (isinstance(n, ast.Attribute) and isinstance(n.ctx, ast.Load) and n.attr == attr and isinstance(n.value, ast.Name) and n.value.id == obj)
+        ]
+        if not reads:
+            continue
+        # names the stored value depends on, through local assignments
+        seen, todo, deps = set(), [st.value], set()
+        while todo:
+            e = todo.pop()
+            for nm in ast.walk(e):
+                if isinstance(nm, ast.Name) and isinstance(nm.ctx, ast.Load) and nm.id not in seen:
+                    seen.add(nm.id)
+                    if nm.id in params:
+                        deps.add(nm.id)
+                    for a in assigns:
+                        if isinstance(a.targets[0], ast.Name) and a.targets[0].id == nm.id and not (isinstance(a.value, ast.Call) and dotted(a.value.func) == "getattr"):
+                            todo.append(a.value)
+        extra = sorted(deps - {obj})
+        # a key that includes the other parameters (dict memo o._a[key]) is not this shape: the store target is a plain attribute
+        if extra:
+            out.append((st, obj, attr, extra))
+    return out
+
+
+def check_memo(ctx, R="C08.memo"):
+    ctx.rule(
+        R,
+        "no under-keyed memo in the pruning code: a value a pruning function stores on one of its arguments (`o._x = v`) and reads back on a later "
+        "call must depend on that argument only; if it also depends on another parameter (a distance bound, a tolerance) the second call with a larger "
+        "bound re-uses the cells expanded for the first one and prunes feasible positions away",
+    )
+    model = ctx.model
+    w = ast.parse(_MEMO_WITNESS).body[0]
+    for n_ in ast.walk(w):
+        for ch in ast.iter_child_nodes(n_):
+            ch._parent = n_
+    try:
+        wf = _memo_findings(w)
+    except Exception:
+        wf = None
+    if not wf or wf[0][1:] != ("field", "_cells", ["dist"]):
+        # the witness must be analysable with the same machinery
+        from ..model import Module
+
+        wm = Module("memo_witness", "memo_witness.py", _MEMO_WITNESS)
+        wf = _memo_findings(wm.functions["f"])
+        if not wf or wf[0][1:] != ("field", "_cells", ["dist"]):
+            raise AnalysisError("the built-in positive example of C08.memo is no longer matched")
+    n = 0
+    for mod in (PR,):
+        m = model.module(mod)
+        for q, fn in m.functions.items():
+            n += 1
+            for st, obj, attr, extra in _memo_findings(fn):
+                ctx.finding(
+                    R,
+                    st,
+                    f"{q} memo {obj}.{attr} ignores {extra}",
+                    f"pruning.{q} stores `{norm_text(st, 70)}` and re-uses it on later calls, but the stored value also depends on the parameter(s) {extra}: "
+                    f"a later call with another value of {extra[0]} gets the result computed for the first one (e.g. target cells buffered by a smaller maxDistance), so "
+                    f"positions that are feasible for the second object are pruned",
+                )
+    ctx.ok(R, m.rel if hasattr(m, "rel") else "src/scenic/core/pruning.py", f"{n} functions of scenic.core.pruning: no memo stored on an argument depends on another parameter (positive example matched)")
+    ctx.floor(R, n, 15, "functions of the pruning module")
+
+
 def check(ctx):
     # pruning erodes containers / bounds distances by the support intervals of sizes and offsets: an interval that excludes an
     # attainable value prunes feasible scenes away (rule shared with C05, reported here as C08.support)
@@ -920,3 +1009,4 @@ def check(ctx):
     ctx.run(check_progress)
     ctx.run(check_room)
     ctx.run(check_none)
+    ctx.run(check_memo)
